@@ -763,6 +763,8 @@ func (self *TransparencyBinaryServerProtocol) ProcessCommad(command protocol.ICo
 				return nil
 			}
 
+			clientProtocol.initCommand = initCommand
+			clientProtocol.initResultCommand = nil
 			err = clientProtocol.Write(initCommand)
 			if err != nil {
 				return self.Write(protocol.NewInitResultCommand(initCommand, protocol.RESULT_ERROR, 0x02|self.slock.GetInitCommandState()))
